@@ -261,6 +261,12 @@ def execute_utility(sc) -> Result:
     Yo = Y.copy()
     Xo[::3] = im + 2.0
     Yo[1::3] = -1.5
+    # ... and the bands less than one cell outside each edge
+    Xo[2::9] = -0.5
+    Yo[5::9] = -0.25
+    Xo[8::9] = im - 1.0 + 0.5
+    if n > 17:
+        Yo[17] = jm - 1.0          # exactly on the upper limit: outside (valid range is 0 <= y < jmax-1)
     outside = (Xo < 0) | (Xo >= im - 1) | (Yo < 0) | (Yo >= jm - 1)
     for ov in (s.pick([-1.0, 99.0, 1e20]), 0.0):
         got = guard(lambda ov=ov: sample2D(G, Xo, Yo, outside_value=ov), f"outside_value={ov}")
@@ -271,7 +277,7 @@ def execute_utility(sc) -> Result:
             if bad.any():
                 q = int(np.nonzero(bad)[0][0])
                 res.add(Violation("C16.sample2d.outside", None, f"outside_value={ov} at ({Xo[q]:.2f},{Yo[q]:.2f})", got[q], ov))
-            inside_ok = ~outside & (np.abs(np.asarray(got) - sample2D(G, X, Y)) > 1e-12)
+            inside_ok = ~outside & (np.abs(np.asarray(got) - sample2D(G, np.where(outside, 0.5, Xo), np.where(outside, 0.5, Yo))) > 1e-12)
             if inside_ok.any():
                 res.add(Violation("C16.sample2d.outside", None, "inside points when others are outside", "changed", "unchanged"))
     return res
